@@ -115,7 +115,7 @@ fn flush_thread_log() {
 // ---------------------------------------------------------------------------
 fn gen_data<F: Fl>(rng: &mut Rng, n: usize, class: usize) -> Vec<F> {
     let small = F::IS32;
-    let v: Vec<f64> = match class % 8 {
+    let v: Vec<f64> = match class % 9 {
         0 => (0..n).map(|_| rng.unit() * 2.0 - 1.0).collect(),
         1 => {
             // cancelling signs
@@ -145,10 +145,16 @@ fn gen_data<F: Fl>(rng: &mut Rng, n: usize, class: usize) -> Vec<F> {
             let c = rng.normal() * 100.0;
             vec![c; n]
         }
-        _ => {
+        7 => {
             // large mean relative to spread (up to 1e8 for f64, 1e3 for f32)
             let off = if small { 1.0e3 } else { 1.0e8 };
             (0..n).map(|_| off + rng.unit() * 2.0).collect()
+        }
+        _ => {
+            // mean of order one, spread many orders of magnitude smaller (exactly representable grid)
+            let e = if small { rng.range(12, 18) } else { rng.range(30, 45) };
+            let off = *rng.pick(&[0.5, 1.0, -0.75, 3.0]);
+            (0..n).map(|_| off + rng.range(-9, 9) as f64 * 2f64.powi(-(e as i32))).collect()
         }
     };
     v.into_iter().map(F::of).collect()
@@ -156,9 +162,14 @@ fn gen_data<F: Fl>(rng: &mut Rng, n: usize, class: usize) -> Vec<F> {
 
 fn gen_positive<F: Fl>(rng: &mut Rng, n: usize) -> Vec<F> {
     let m = if F::IS32 { 4 } else { 8 };
-    match rng.below(3) {
+    match rng.below(4) {
         0 => (0..n).map(|_| F::of(0.1 + rng.unit() * 10.0)).collect(),
         1 => (0..n).map(|_| F::of(10f64.powf(rng.unit() * 2.0 * m as f64 - m as f64))).collect(),
+        2 => {
+            // all values within one decade around 10^e (small and large geometric means)
+            let e = if F::IS32 { rng.range(-20, 20) } else { rng.range(-100, 100) } as f64;
+            (0..n).map(|_| F::of(10f64.powf(e + rng.unit()))).collect()
+        }
         _ => (0..n).map(|_| F::of(1.0e3 + rng.unit())).collect(),
     }
 }
@@ -203,6 +214,22 @@ fn rlay(rng: &mut Rng, nd: usize) -> Layout {
     }
 }
 
+/// 1-D view of lane `idx` (index over the remaining axes) along `axis` of a dynamic-dimensional view
+fn lane_view<'a, F: Clone>(v: &ArrayViewD<'a, F>, axis: usize, idx: &[usize]) -> ArrayView1<'a, F> {
+    let mut lv = v.clone();
+    let nd = lv.ndim();
+    // collapse the other axes from the last to the first so that axis numbers stay valid
+    let mut j = idx.len();
+    for a in (0..nd).rev() {
+        if a == axis {
+            continue;
+        }
+        j -= 1;
+        lv = lv.index_axis_move(Axis(a), idx[j]);
+    }
+    lv.into_dimensionality::<Ix1>().unwrap()
+}
+
 // ---------------------------------------------------------------------------
 // C06 / C07 / C18(axis==lane): floats
 // ---------------------------------------------------------------------------
@@ -210,7 +237,7 @@ fn summary_case<F: Fl>(rng: &mut Rng, acc: &mut Acc, prop: &str) {
     let (shape, axis) = gen_shape_axis(rng);
     let nd = shape.len();
     let n: usize = shape.iter().product();
-    let dclass = rng.below(8);
+    let dclass = rng.below(9);
     let data: Vec<F> = gen_data::<F>(rng, n, dclass);
     let wclass = rng.below(5);
     let wfull: Vec<F> = gen_weights::<F>(rng, n, wclass);
@@ -269,9 +296,17 @@ fn summary_case<F: Fl>(rng: &mut Rng, acc: &mut Acc, prop: &str) {
                 }
             };
             let r2 = catch(|| lown.weighted_sum(&wown));
-            rec(acc, "weighted_sum_axis", ty, format!("{},\"lane\":{},\"x\":{},\"w\":{},\"r\":{},\"r2\":{}", meta, li, hexes(&lane), hexes(&waxis), res_json(&pick(&rs)), res_json(&r2)));
+            // the same whole-array routine applied to the lane as it lies in the (strided / reversed) array, with the
+            // weights view in its own layout
+            let lv = lane_view(&v, axis, &idx);
+            let r3 = catch(|| lv.weighted_sum(&w1));
+            rec(acc, "weighted_sum_axis", ty, format!("{},\"lane\":{},\"x\":{},\"w\":{},\"r\":{},\"r2\":{},\"r3\":{}", meta, li, hexes(&lane), hexes(&waxis), res_json(&pick(&rs)), res_json(&r2), res_json(&r3)));
             let r2 = catch(|| lown.weighted_mean(&wown));
-            rec(acc, "weighted_mean_axis", ty, format!("{},\"lane\":{},\"x\":{},\"w\":{},\"r\":{},\"r2\":{}", meta, li, hexes(&lane), hexes(&waxis), res_json(&pick(&rm)), res_json(&r2)));
+            // the same whole-array routine applied to the lane as it lies in the (strided / reversed) array, with the
+            // weights view in its own layout
+            let lv = lane_view(&v, axis, &idx);
+            let r3 = catch(|| lv.weighted_mean(&w1));
+            rec(acc, "weighted_mean_axis", ty, format!("{},\"lane\":{},\"x\":{},\"w\":{},\"r\":{},\"r2\":{},\"r3\":{}", meta, li, hexes(&lane), hexes(&waxis), res_json(&pick(&rm)), res_json(&r2), res_json(&r3)));
         }
     }
     if prop == "C07" {
@@ -310,9 +345,17 @@ fn summary_case<F: Fl>(rng: &mut Rng, acc: &mut Acc, prop: &str) {
                 }
             };
             let r2 = catch(|| lown.weighted_var(&wown, ddof));
-            rec(acc, "weighted_var_axis", ty, format!("{},\"lane\":{},\"x\":{},\"w\":{},\"ddof\":\"{}\",\"r\":{},\"r2\":{}", meta, li, hexes(&lane), hexes(&waxis), ddof.hex(), res_json(&pick(&rv)), res_json(&r2)));
+            // the same whole-array routine applied to the lane as it lies in the (strided / reversed) array, with the
+            // weights view in its own layout
+            let lv = lane_view(&v, axis, &idx);
+            let r3 = catch(|| lv.weighted_var(&w1, ddof));
+            rec(acc, "weighted_var_axis", ty, format!("{},\"lane\":{},\"x\":{},\"w\":{},\"ddof\":\"{}\",\"r\":{},\"r2\":{},\"r3\":{}", meta, li, hexes(&lane), hexes(&waxis), ddof.hex(), res_json(&pick(&rv)), res_json(&r2), res_json(&r3)));
             let r2 = catch(|| lown.weighted_std(&wown, ddof));
-            rec(acc, "weighted_std_axis", ty, format!("{},\"lane\":{},\"x\":{},\"w\":{},\"ddof\":\"{}\",\"r\":{},\"r2\":{}", meta, li, hexes(&lane), hexes(&waxis), ddof.hex(), res_json(&pick(&rs)), res_json(&r2)));
+            // the same whole-array routine applied to the lane as it lies in the (strided / reversed) array, with the
+            // weights view in its own layout
+            let lv = lane_view(&v, axis, &idx);
+            let r3 = catch(|| lv.weighted_std(&w1, ddof));
+            rec(acc, "weighted_std_axis", ty, format!("{},\"lane\":{},\"x\":{},\"w\":{},\"ddof\":\"{}\",\"r\":{},\"r2\":{},\"r3\":{}", meta, li, hexes(&lane), hexes(&waxis), ddof.hex(), res_json(&pick(&rs)), res_json(&r2), res_json(&r3)));
         }
     }
     if n >= 2 {
@@ -326,7 +369,7 @@ fn c18_num_case<F: Fl>(rng: &mut Rng, acc: &mut Acc) {
     // (a) moments, in-process bit equality
     let (shape, _axis) = gen_shape_axis(rng);
     let n: usize = shape.iter().product();
-    let dclass = rng.below(8);
+    let dclass = rng.below(9);
     let data: Vec<F> = gen_data::<F>(rng, n, dclass);
     let ld = rlay(rng, shape.len());
     let ed = Embedded::new(&shape, &data, ld.clone());
@@ -500,6 +543,23 @@ fn cov_case<F: Fl>(rng: &mut Rng, acc: &mut Acc) {
             data[no] = data[no] + F::one();
         }
     }
+    // a quarter of the matrices are rescaled per variable by 10^s (finite data of very large / very small
+    // magnitude: products of two variances leave the exponent range long before the data or the covariances do)
+    if rng.chance(0.25) {
+        let lim = if F::IS32 { 14 } else { 120 };
+        for i in 0..nv {
+            let s = 10f64.powi(rng.range(-lim, lim) as i32);
+            for k in 0..no {
+                data[i * no + k] = F::of(data[i * no + k].to_f64().unwrap() * s);
+            }
+            if (0..no).all(|k| data[i * no + k] == data[i * no]) || (0..no).any(|k| !data[i * no + k].is_finite()) {
+                for k in 0..no {
+                    data[i * no + k] = F::of(k as f64 + 1.0);
+                }
+            }
+        }
+        acc.count("rescaled_matrices");
+    }
     let lay = match rng.below(5) {
         0 => Layout::canonical(2),
         1 => Layout::fortran(2),
@@ -569,13 +629,13 @@ fn dev_float_case<F: Fl>(rng: &mut Rng, acc: &mut Acc) {
     let shape = dev_shape(rng);
     let nd = shape.len();
     let n: usize = shape.iter().product();
-    let ca = rng.below(8);
+    let ca = rng.below(9);
     let a: Vec<F> = gen_data::<F>(rng, n, ca);
     let mut b: Vec<F> = match rng.below(4) {
         0 => a.clone(),
         1 => a.iter().map(|x| *x + F::of(rng.normal() * 1e-3)).collect(),
         _ => {
-            let cb = rng.below(8);
+            let cb = rng.below(9);
             gen_data::<F>(rng, n, cb)
         }
     };
@@ -585,6 +645,35 @@ fn dev_float_case<F: Fl>(rng: &mut Rng, acc: &mut Acc) {
                 b[i] = a[i];
             }
         }
+    }
+    // NaN never equals anything, itself included: some pairs carry NaNs at common and at different positions
+    let with_nan = rng.chance(0.2);
+    if with_nan {
+        for i in 0..n {
+            match rng.below(6) {
+                0 => {
+                    let mut a2 = a.clone();
+                    a2[i] = F::nan();
+                    let _ = a2;
+                }
+                _ => {}
+            }
+        }
+    }
+    let mut a = a;
+    if with_nan {
+        for i in 0..n {
+            match rng.below(6) {
+                0 => a[i] = F::nan(),
+                1 => {
+                    a[i] = F::nan();
+                    b[i] = F::nan();
+                }
+                2 => b[i] = F::nan(),
+                _ => {}
+            }
+        }
+        acc.count("pairs_with_nan");
     }
     let (fa, fb) = (rng.below(8), rng.below(8));
     let (la, lb) = (Layout::family(nd, fa), Layout::family(nd, fb));
@@ -610,6 +699,15 @@ fn dev_float_case<F: Fl>(rng: &mut Rng, acc: &mut Acc) {
                 (Ok(Ok(c)), Ok(Ok(d))) if *c == want && c + d == n => {}
                 other => {
                     acc.violation("counts", None, J::obj(vec![("what", J::s(format!("count_eq/count_neq = {:?}, expected {} equal of {}", other, want, n))), ("ty", J::s(F::TY)), ("shape", J::us(&shape))]));
+                }
+            }
+            // an array compared with itself (same buffer, same strides): NaN positions still do not count
+            acc.eval();
+            let want_self = a.iter().filter(|p| p == p).count();
+            match catch(|| (x.count_eq(x), x.count_neq(x))) {
+                Ok((Ok(c), Ok(d))) if c == want_self && c + d == n => {}
+                other => {
+                    acc.violation("counts", None, J::obj(vec![("what", J::s(format!("count_eq/count_neq of an array with itself = {:?}, expected {} equal of {} ({} NaN)", other, want_self, n, n - want_self))), ("ty", J::s(F::TY)), ("shape", J::us(&shape))]));
                 }
             }
             let fields = |r: String| format!("{},\"a\":{},\"b\":{},\"r\":{}", meta, hexes(&a), hexes(&b), r);
@@ -874,6 +972,27 @@ fn entropy_case<F: Fl>(rng: &mut Rng, acc: &mut Acc) {
         let i = rng.below(n);
         pf[i] = F::zero();
         qf[i] = F::nan();
+    }
+    // a positive subnormal p_i still contributes: paired with q_i = 0 the cross-entropy and KL are +inf (q_i is kept
+    // at 0 or tiny so that q/p stays inside the exponent range)
+    if nan_mode >= 3 && rng.chance(0.15) {
+        let i = rng.below(n);
+        pf[i] = if F::IS32 { F::of(1.0e-41) } else { F::of(3.0e-320) };
+        qf[i] = if rng.chance(0.7) { F::zero() } else { pf[i] + pf[i] };
+        acc.count("subnormal_p_cases");
+    }
+    // ratios q_i / p_i beyond the exponent range of the element type (known finding F9: the quotient overflows or
+    // underflows before the logarithm is taken)
+    if nan_mode >= 3 && rng.chance(0.04) {
+        let i = rng.below(n);
+        if rng.chance(0.5) {
+            pf[i] = if F::IS32 { F::of(1.0e-41) } else { F::of(3.0e-320) };
+            qf[i] = F::of(0.5);
+        } else {
+            pf[i] = if F::IS32 { F::of(1.0e25) } else { F::of(1.0e200) };
+            qf[i] = if F::IS32 { F::of(1.0e-25) } else { F::of(1.0e-200) };
+        }
+        acc.count("extreme_ratio_cases");
     }
     let (lp, lq) = (rlay(rng, nd), rlay(rng, nd));
     let ep = Embedded::new(&shape, &pf, lp.clone());
